@@ -42,6 +42,12 @@ DEMOS = {
     ("C18", "change2"): ("sh", "sh {out}/demo/run_demo.sh 2>&1 | tail -25; exit ${PIPESTATUS[0]}", None),
     ("C19", "change1"): ("sh", "bash {out}/demo/run.sh 2>&1 | tail -25; exit ${PIPESTATUS[0]}", None),
     ("C19", "change2"): ("sh", "bash {out}/demo/run.sh 2>&1 | tail -25; exit ${PIPESTATUS[0]}", None),
+    ("C20", "change1"): ("sh", "bash {out}/demo/run.sh 2>&1 | tail -25; exit ${PIPESTATUS[0]}", None),
+    ("C20", "change2"): ("sh", "bash {out}/demo/run.sh 2>&1 | tail -25; exit ${PIPESTATUS[0]}", None),
+    ("C02r2", "change1"): ("sh", "python3 {out}/demo/demo_datetime_eq_wide_zone.py 2>&1 | tail -25; exit ${PIPESTATUS[0]}", None),
+    ("C02r2", "change2"): ("sh", "python3 {out}/demo/demo_compaction_level_reuse.py 2>&1 | tail -25; exit ${PIPESTATUS[0]}", None),
+    ("C03r2", "change1"): ("sh", "bash {out}/demo/run.sh 2>&1 | tail -25; exit ${PIPESTATUS[0]}", None),
+    ("C03r2", "change2"): ("sh", "bash {out}/demo/run.sh 2>&1 | tail -25; exit ${PIPESTATUS[0]}", None),
     ("C01r2", "change1"): ("sh", "python3 {out}/demo/demo.py 2>&1 | tail -25; exit ${PIPESTATUS[0]}", None),
     ("C01r2", "change2"): ("sh", "python3 {out}/demo/demo.py 2>&1 | tail -25; exit ${PIPESTATUS[0]}", None),
 }
